@@ -25,8 +25,9 @@ inductive CST where
   | unary (o : Name) (c : CST)
   | postfix (c : CST) (o : Name)
   | call (n : Name) (args : CList)
-  | list (xs : CList)
-  | map (kvs : CMap)
+  /-- `trail`: the optional comma before the closing bracket (non-empty lists only) -/
+  | list (xs : CList) (trail : Bool)
+  | map (kvs : CMap) (trail : Bool)
   /-- `l o r`, or `l not o r` when `neg` -/
   | bin (neg : Bool) (o : Name) (l r : CST)
   | tern (c a b : CST)
@@ -39,6 +40,7 @@ inductive CMap where
 end
 
 def opToks (neg : Bool) (o : Name) : List Tok := if neg then [tNot, .op o] else [.op o]
+def trailToks (tr : Bool) : List Tok := if tr then [.comma] else []
 
 mutual
 def CST.flatten : CST → List Tok
@@ -47,8 +49,8 @@ def CST.flatten : CST → List Tok
   | .unary o c => .op o :: c.flatten
   | .postfix c o => c.flatten ++ [.op o]
   | .call n args => .func n :: tOpen :: (args.flatten ++ [tClose])
-  | .list xs => tOpenB :: (xs.flatten ++ [tCloseB])
-  | .map kvs => tOpenC :: (kvs.flatten ++ [tCloseC])
+  | .list xs tr => tOpenB :: (xs.flatten ++ (trailToks tr ++ [tCloseB]))
+  | .map kvs tr => tOpenC :: (kvs.flatten ++ (trailToks tr ++ [tCloseC]))
   | .bin neg o l r => l.flatten ++ (opToks neg o ++ r.flatten)
   | .tern c a b => c.flatten ++ (tQ :: (a.flatten ++ (tColon :: b.flatten)))
 /-- comma separated, no trailing comma -/
@@ -69,8 +71,8 @@ def CST.strip : CST → AST
   | .unary o c => .unary o c.strip
   | .postfix c o => .postfix c.strip o
   | .call n args => .call n args.strip
-  | .list xs => .list xs.strip
-  | .map kvs => .map kvs.strip
+  | .list xs _ => .list xs.strip
+  | .map kvs _ => .map kvs.strip
   | .bin neg o l r => wrapNot neg (.binary o l.strip r.strip)
   | .tern c a b => .ternary c.strip a.strip b.strip
 def CList.strip : CList → List AST
@@ -93,7 +95,7 @@ def isTern : CST → Bool
 call, or such a thing already followed by postfix operators — not a prefix expression (`-a++` is
 `-(a++)`). -/
 def postfixable : CST → Bool
-  | .atom _ | .paren _ | .call _ _ | .list _ | .map _ | .postfix _ _ => true
+  | .atom _ | .paren _ | .call _ _ | .list _ _ | .map _ _ | .postfix _ _ => true
   | _ => false
 /-- operand of a prefix operator: anything but an unparenthesised infix expression or conditional -/
 def isPrimary : CST → Bool
@@ -120,8 +122,8 @@ def Canon (regs : Regs) : CST → Prop
   | .unary o c => regs.isPrefix o = true ∧ c.isPrimary = true ∧ Canon regs c
   | .postfix c o => regs.isPostfix o = true ∧ c.postfixable = true ∧ Canon regs c
   | .call _ args => CanonList regs args
-  | .list xs => CanonList regs xs
-  | .map kvs => CanonMap regs kvs
+  | .list xs tr => CanonList regs xs ∧ (tr = true → xs ≠ .nil)
+  | .map kvs tr => CanonMap regs kvs ∧ (tr = true → kvs ≠ .nil)
   | .bin _ o l r => regs.isInfix o = true ∧ Canon regs l ∧ Canon regs r ∧ l.isTern = false ∧ r.isTern = false ∧
       (∀ o', l.root? = some o' → okLeft regs o' o) ∧ (∀ o', r.root? = some o' → okRight regs o o')
   | .tern c a b => Canon regs c ∧ c.isTern = false ∧ Canon regs a ∧ Canon regs b
@@ -143,8 +145,8 @@ def CST.nest : CST → Nat
   | .unary _ c => c.nest + 1
   | .postfix c _ => c.nest
   | .call _ args => args.nest
-  | .list xs => xs.nest
-  | .map kvs => kvs.nest
+  | .list xs _ => xs.nest
+  | .map kvs _ => kvs.nest
   | .bin _ _ l r => max l.nest (match r with | .bin _ _ _ _ => r.nest + 1 | _ => r.nest)
   | .tern c a b => max c.nest (max (a.nest + 1) (b.nest + 1))
 def CList.nest : CList → Nat
